@@ -9,14 +9,18 @@ EXTENDS Registry, TLC
 CONSTANTS Groups,     \* which API groups are explored: subset of {"life", "label", "bind", "fixup", "sect", "addr", "reloc", "emit"}
           WithFaults, \* explore injected allocation failures
           MaxOps,     \* bound on the history length (0 = unbounded, state space bounded by the limits only)
-          MaxFix, MaxAddr, Emitters
+          MaxFix, MaxAddr, Emitters,
+          LNames, LTypes, LParents   \* alphabet of the label calls (MCNames / MCNamesLite ...)
 
 VARIABLES hist
 mvars == <<inited, base, eh, lg, att, labels, nmap, sects, order, relocs, atsec, atab, fix, bb, hist>>
 
 (* label names: empty, "a", "b", maximal length ("ab": MaxLabelName = 2), too long, and one with an embedded NUL *)
 MCNames == {<<>>, <<1>>, <<2>>, <<1, 2>>, <<1, 1, 1>>, <<1, 0, 2>>}
+MCNamesLite == {<<>>, <<1>>, <<1, 0, 2>>}
 MCTypes == 0 .. 4
+MCTypesLite == {0, 1, 2}
+MCParentsLite == {-1, 0}
 MCOrderMin == -1000
 MCOrderMax == 1000
 MCParents == {-1, 0, 1, 9}
@@ -63,10 +67,10 @@ Emit ==
 Label ==
   \/ \E f \in MCFaults : \E r \in Cands({"TooManyLabels"}, f) : \E id \in IdCands(r, Len(labels)) :
         NewLabel(r, id, f) /\ Rec([op |-> "label", fault |-> f])
-  \/ \E n \in MCNames, t \in MCTypes, p \in MCParents, f \in MCFaults :
+  \/ \E n \in LNames, t \in LTypes, p \in LParents, f \in MCFaults :
         \E r \in Cands(NamedMust(Eff(n), t, p) \cup NamedMay(n, t, p), f) : \E id \in IdCands(r, Len(labels)) :
           NewNamed(n, t, p, r, id, f) /\ Rec([op |-> "named", name |-> n, type |-> t, parent |-> p, fault |-> f])
-  \/ \E n \in MCNames, p \in MCParents : \E r \in LookupSet(p, Eff(n)) \cup {-1, 0} :
+  \/ \E n \in LNames, p \in LParents : \E r \in LookupSet(p, Eff(n)) \cup {-1, 0} :
         LookupByName(n, p, r) /\ Rec([op |-> "lookup", name |-> n, parent |-> p])
 
 BindG ==
